@@ -41,6 +41,13 @@ def check(m, c, label):
         bad.append(f"{label}: {len(added)} hydrogens added, the formula gives {want}")
     if not np.isfinite(m.coords[n0:]).all():
         bad.append(f"{label}: new hydrogens have non-finite coordinates")
+    nbrs = [x for x in m.connected_atoms(c) if x in m.atoms[:n0]]
+    if nbrs and np.isfinite(m.coords[n0:]).all():
+        cen = np.mean([m.get_atom_coord(x) for x in nbrs], axis=0) - m.get_atom_coord(c)
+        if np.linalg.norm(cen) > 0.2:
+            for hcoord in m.coords[n0:]:
+                if len(added) == 1 and np.dot(hcoord - m.get_atom_coord(c), cen) >= 0:
+                    bad.append(f"{label}: the new hydrogen points towards the neighbours")
     if not np.allclose(m.coords[:n0], coords0, equal_nan=True):
         bad.append(f"{label}: existing coordinates changed")
     n1 = m.n_atoms
@@ -57,8 +64,10 @@ else:
     for centre in ("C", "N", "O"):
         for nb in (0, 1, 2, 3):
             for z in (False, True):
-                m, c = build(centre, nb, along_z=z)
-                check(m, c, f"{centre}, {nb} neighbours{', first bond along z' if z else ''}")
+                for flip in (1, -1):
+                    m, c = build(centre, nb, along_z=z)
+                    m.coords = m.coords * flip          # mirror: both orientations of a pyramidal centre
+                    check(m, c, f"{centre}, {nb} neighbours{', first bond along z' if z else ''}{', mirrored' if flip < 0 else ''}")
 if bad:
     if sys.argv[1] == "--search":
         json.dump({"witness": {"op": "search", "signature": "hydrogens"}, "violated": bad[:5]}, open(sys.argv[3], "w"), indent=1)
